@@ -251,3 +251,4 @@ func basicInt(i int64) datamodel.Node { return basicnode.NewInt(i) }
 
 func basicLink(c cid.Cid) datamodel.Node { return basicnode.NewLink(cidlink.Link{Cid: c}) }
 func basicBytes(b []byte) datamodel.Node { return basicnode.NewBytes(b) }
+func basicString(s string) datamodel.Node { return basicnode.NewString(s) }
